@@ -3,6 +3,7 @@
 import numpy as np
 
 from ..common import Violation, Skip, guard, parse, render, Ref, Invalid
+from ..model import walk
 from ..harness import Part, step_budget
 from .. import gen, gates, gen_emul, refexec, refsim
 from .c03 import ref_states, TOL
@@ -17,6 +18,10 @@ RULE = (
     "prepare yields none) and every visited subcircuit's state equals the reference state (so gates before a "
     "repeated prepare_all are discarded); rejected => JaqalError whose message names the rule (prepare/measure, or "
     "'loop' for the loop rule); a hang (deterministic step budget) or any other exception is a violation.  "
+    "Programs with loops are also built through circuitbuilder.build with numpy.int64 loop counts and must get the same verdict.  "
+    "Part backend-history: 2-4 such programs are run in order through ONE backend object "
+    "(run_jaqal_circuit(c, backend=b)); each must get the verdict and subcircuit count the reference gives it alone "
+    "(non-trivial = an ill-bracketed program after one that was rejected or that ended in an open prepare_all).  "
     "Non-trivial = the verdict depends on a loop count or on structure at nesting depth >= 2 (re-evaluated with all "
     "counts set to 1 / to 2). distinct = program text."
 )
@@ -109,8 +114,103 @@ def check(case):
             ok = "prepare_all" in msg or "measure_all" in msg
         if not ok:
             raise Violation("error-does-not-name-rule", f"rule {rule}: message {msg!r}\n--- program:\n{text}", where=rule)
+    if any(x[0] == "loop" for x in walk(prog["body"] + [m["body"] for m in prog["macros"]])):
+        # the same program built through circuitbuilder.build, its loop counts numpy integers (what
+        # a computed count is): an integer is an integer, the verdict is the same
+        from jaqalpaq.core.circuitbuilder import build
+
+        def conv(x):
+            if isinstance(x, list):
+                if x and x[0] == "loop":
+                    return ["loop", np.int64(x[1]), conv(x[2])]
+                return [conv(v) for v in x]
+            return x
+
+        st_b, cb = guard(build, conv(render.to_sexpr(prog)), inject_pulses=natives, what="build(sexpr, numpy loop counts)")
+        if st_b == "ok":
+            np.random.seed(7)
+            with step_budget(2000 * (refexec.unrolled_size(tree) + 50) + 10**6):
+                st_b, resb = guard(run_jaqal_circuit, cb, what="run_jaqal_circuit(built circuit)")
+            if acc[0] == "ok" and (st_b == "err" or len(resb.subcircuits) != acc[1]):
+                raise Violation("built-circuit:rejected-or-miscounted", f"{resb if st_b == 'err' else len(resb.subcircuits)} (reference: {acc[1]} subcircuits)\n--- program (built from its S-expression, loop counts numpy.int64):\n{text}")
+            if acc[0] != "ok" and st_b == "ok":
+                raise Violation("built-circuit:accepted-ill-bracketed-program", f"reference rejects ({acc[1]}); emulator returned {len(resb.subcircuits)} subcircuits\n--- program (built from its S-expression, loop counts numpy.int64):\n{text}", where=acc[1])
+            classes.append("also-built-with-numpy-loop-counts")
     nt = depends_on_counts or _depth(tree) >= 3
     return {"nontrivial": nt, "classes": classes, "key": text, "sample": {"text": text, "reference": acc[0] if acc[0] == "ok" else acc[1]}}
+
+
+def history(case):
+    """2-4 programs through ONE backend object: each verdict is the reference's for that program
+    alone, whatever the earlier ones left open or were rejected for."""
+    from jaqalpaq.emulator import run_jaqal_circuit
+    from jaqalpaq.emulator.unitary import UnitarySerializedEmulator
+
+    natives = gates.make_gates(0)
+    backend = UnitarySerializedEmulator()
+    verdicts, texts = [], []
+    open_before = False
+    interesting = False
+    for prog in case["progs"]:
+        text = render.to_text(prog)
+        try:
+            ref = Ref(prog)
+            ref.check_static()
+            n = ref.reg_size()
+            tree = refexec.expand(ref)
+        except Invalid:
+            raise Skip()
+        if refexec.static_errors(tree, n) or refexec.unrolled_size(tree) > 1500:
+            raise Skip()
+        acc = refexec.accept(tree)
+        st_, c = guard(parse, text, inject_pulses=natives, what="parse")
+        if st_ == "err":
+            raise Skip()
+        np.random.seed(7)
+        with step_budget(2000 * (refexec.unrolled_size(tree) + 50) + 10**6):
+            st_, res = guard(run_jaqal_circuit, c, backend=backend, what="run_jaqal_circuit(backend=one object)")
+        texts.append(text)
+        hist = "\n--- then:\n".join(texts)
+        if acc[0] == "ok":
+            if st_ == "err":
+                raise Violation("history:rejected-well-bracketed-program", f"program {len(texts)} of the history: {res}\n--- programs, in order, on one backend object:\n{hist}", where=_msgkey(str(res)))
+            if len(res.subcircuits) != acc[1]:
+                raise Violation("history:subcircuit-count", f"program {len(texts)}: emulator {len(res.subcircuits)} != reference {acc[1]}\n--- programs:\n{hist}")
+        elif st_ == "ok":
+            raise Violation("history:accepted-ill-bracketed-program", f"program {len(texts)} of the history: reference rejects ({acc[1]}); emulator returned {len(res.subcircuits)} subcircuits\n--- programs, in order, on one backend object:\n{hist}", where=acc[1])
+        if open_before and acc[0] != "ok":
+            interesting = True
+        verdicts.append(acc[0] if acc[0] == "ok" else acc[1])
+        # what this program leaves behind: a rejection midway, or a trailing open prepare_all
+        open_before = open_before or acc[0] != "ok" or _ends_open(tree)
+    classes = ["history:" + ">".join("ok" if v == "ok" else "rej" for v in verdicts)]
+    if interesting:
+        classes.append("ill-bracketed-after-open-or-rejected")
+    return {"nontrivial": interesting, "classes": classes, "key": "\n==\n".join(texts), "sample": {"texts": texts, "reference": verdicts}}
+
+
+def _ends_open(tree):
+    last = None
+    for g in _flat_gates(tree):
+        if g in ("prepare_all", "measure_all"):
+            last = g
+    return last == "prepare_all"
+
+
+def _flat_gates(tree):
+    tag = tree[0]
+    if tag == "g":
+        yield tree[1]
+    elif tag == "loop":
+        yield from _flat_gates(tree[2])
+    elif tag == "sub":
+        yield "prepare_all"
+        for k in tree[2]:
+            yield from _flat_gates(k)
+        yield "measure_all"
+    else:
+        for k in tree[1]:
+            yield from _flat_gates(k)
 
 
 def _zero_loop_around_bracket(tree, inside=False):
@@ -137,4 +237,7 @@ def _msgkey(msg):
 
 
 def parts():
-    return [Part("brackets", gen.cases(lambda ch: gen_emul.make_pm(ch)), check, quick=6000, thorough=150000, min_nontrivial=0.2)]
+    return [
+        Part("brackets", gen.cases(lambda ch: gen_emul.make_pm(ch)), check, quick=6000, thorough=150000, min_nontrivial=0.2),
+        Part("backend-history", gen.cases(lambda ch: {"progs": [gen_emul.make_pm(ch)["prog"] for _ in range(ch.int(2, 4))]}), history, quick=2500, thorough=60000, min_nontrivial=0.1),
+    ]
